@@ -708,13 +708,24 @@ func c12Check(o *vh.Oracle, r *vh.Result, c *c12Case, record bool, st *c12Stats)
 		if record {
 			r.Fail("corr", "corr:C12/answers", fmt.Sprintf("answers differ: model %s, implementation %s (callers %v, schedule %s)", c.Model, c.Impl, c.Callers, c12GrantString(c.Grants)), c)
 		}
-	case p[2] == "_" && ms != strict:
+	case p[2] == "_" && (strict > ms || (ms != strict && c12Distinguishable(c))):
+		// answers that do not identify their upstream call (booleans, missing, StoreChunk's nil) let the harness
+		// match a caller with a later, overlapping call of the same outcome: then it may only count fewer
 		bad = true
 		if record {
 			r.Fail("corr", "corr:C12/strict-overlap", fmt.Sprintf("callers outside the upstream interval of their result: model %d, implementation %d", ms, strict), c)
 		}
 	}
 	return bad, nil
+}
+
+func c12Distinguishable(c *c12Case) bool {
+	for _, s := range c.Callers {
+		if s[0] == 'h' || s[0] == 's' {
+			return false
+		}
+	}
+	return !strings.Contains(c.Outcomes, "m")
 }
 
 // c12Walk asks the model for a maximal schedule, choosing among the enabled callers with the given random numbers.
@@ -918,9 +929,17 @@ func runC12(a vh.Args, o *vh.Oracle, r *vh.Result) error {
 	}
 	r.Extra["callers_outside_upstream_interval_of_their_result"] = map[string]int{"model": st.strictModel, "implementation": st.strictImpl}
 	if st.strictImpl > 0 {
-		r.Note("strict reading of 'in flight during its own call' (overlap with the upstream call proper): %d callers in this run were handed a result whose upstream call had returned before they started (they arrived between markDone and delete); the model predicts the same %d; this is dedup_strict_overlap_refuted, not a violation (see level_note)", st.strictImpl, st.strictModel)
+		r.Note("strict reading of 'in flight during its own call' (overlap with the upstream call proper): %d callers in this run were handed a result whose upstream call had returned before they started (they arrived between markDone and delete); the model counts %d for the same schedules (the harness can only count fewer where answers do not identify their upstream call); this is dedup_strict_overlap_refuted, not a violation (see level_note)", st.strictImpl, st.strictModel)
 	}
-	return c12Stress(a, r)
+	if err := c12Stress(a, r); err != nil {
+		return err
+	}
+	if a.Tier == "thorough" {
+		if bin := chainsRaceBinary(a, r); bin != "" {
+			chainsRaceRun(a, r, bin, "C12", "C12", 10*time.Minute)
+		}
+	}
+	return nil
 }
 
 // ---------- free-running stress in a child process (no hooks): crashes, hangs, races ----------
